@@ -19,6 +19,8 @@ UNITS = [
     U("layout", "h_layout"),
     U("insert", "h_insert", "w_List_insert", ["insert.reuse", "insert.new_block"], cbmc=["--unwind", "6", "--unwinding-assertions"]),
     U("remove", "h_remove", "w_List_remove", ["remove.middle", "remove.only"]),
+    U("removeFront", "h_removeFront", "w_List_removeFront", ["removeFront.more", "removeFront.only"]),
+    U("removeBack", "h_removeBack", "w_List_removeBack", ["removeBack.more", "removeBack.only"]),
     U("swap", "h_swap", "w_List_swap", ["swap.empty_with_full", "swap.full_with_full"]),
     B("copy+dtor.bounded", "h_b_copy", ["b_copy.return"]),
     B("clear+find+eq.bounded", "h_b_clear_find_eq", ["b_clear_find_eq.return"]),
